@@ -117,7 +117,7 @@ impl Check for C01 {
                 events.push(Event { actor: 1, op: Op::Execute { lang, text }, clock });
             }
         }
-        crate::gen::session_variants(&mut r, &mut events, 3, 6);
+        crate::gen::session_variants(&mut r, &mut events, 3, 6, 0);
         Trace { check: "C01".into(), seed, host_tz: env.host_tz.clone(), salt: 0, mode: "mixed".into(), events }
     }
 
@@ -143,7 +143,7 @@ impl Check for C01 {
                         rep.violate("O-total", format!("admin-{}", p.key()), ei, format!("configuration call {:?} panicked: {} at {}", op, p.msg, p.loc));
                     }
                 }
-                Op::Checkpoint { .. } | Op::Nested { .. } => {}
+                Op::Checkpoint { .. } | Op::Nested { .. } | Op::SessionFormat => {}
                 Op::SessionLang { lang } => {
                     if w.sessions.contains_key(&ev.actor) { w.session_set_language(ev.actor, lang); session_lang = lang.clone(); rep.count("session.language_switch"); }
                 }
